@@ -53,7 +53,11 @@ pub fn be_packet(datagram: &mut BytesMut, dcid_len: usize) -> Result<Packet, Err
     })?;
     let (remain, header) = be_header(pkty, dcid_len, remain).map_err(|e| match e {
         ne @ nom::Err::Incomplete(_) => Error::IncompleteHeader(pkty, ne.to_string()),
-        _ => unreachable!("parsing packet header never generates error or failure"),
+        // e.g. a connection ID length above 20 bytes: such a packet must be dropped, see
+        // [Section 17.2](https://www.rfc-editor.org/rfc/rfc9000.html#section-17.2-8.8) of QUIC
+        nom::Err::Error(e) | nom::Err::Failure(e) => {
+            Error::InvalidHeader(pkty, format!("{:?}", e.code))
+        }
     })?;
     match header {
         Header::VN(header) => {
